@@ -7,6 +7,11 @@
 (*    (`Renderable`, which owns no argument namespace); t.par[c] < c is the *)
 (*    parent, t.has the classes owning an Args namespace class.  Class c    *)
 (*    has NF(c) fields over {0,1}; the default of field f is Dflt(c, f).    *)
+(*    The two-value domain is ABSTRACT: the binding instantiates it per     *)
+(*    field with real values that include None and the other falsy values   *)
+(*    (None|0.5, 0|"", False|None), all legitimate field values; the law    *)
+(*    "update returns a namespace holding exactly the given assignment"     *)
+(*    (ApplyKw) does not depend on what the values are.                     *)
 (*  * objects are immutable records                                         *)
 (*       [k |-> "ns", c |-> class, v |-> <<field values>>]                  *)
 (*       [k |-> "ra", c |-> class, v |-> <<per class 1..N: values | <<>> >>]*)
@@ -199,37 +204,48 @@ WellFormed(t, x) ==
 
 (* ------------------------------------------------------------------------ *)
 (* Namespace-CLASS rules (docs: "Defining Fields", "Associating With a       *)
-(* Render Class", "Inheriting Fields", "Other Notes").  A class definition   *)
-(* is described by                                                           *)
+(* Render Class", "Inheriting Fields", "Other Notes").  A class CREATION is  *)
+(* described by                                                              *)
 (*   kind      "args" | "data"                                               *)
 (*   nbases    number of base classes                                        *)
-(*   inherits  the (first) base is an associated namespace class (has fields)*)
+(*   depth     0: the (first) base is the API base class or a field-less     *)
+(*             helper; n > 0: the base is n - 1 plain subclass levels below  *)
+(*             a namespace class that is associated with render class R0     *)
+(*             (so the new class is at depth n below it: it INHERITS the     *)
+(*             fields and, for good, the association)                        *)
 (*   defines   the body annotates fields                                     *)
 (*   defaults  every annotated field is assigned a default                   *)
-(*   assoc     a render class is named in the class header                   *)
-(*   taken     that render class already has a namespace class of this kind  *)
+(*   assoc     a render class R (another one) is named in the class header   *)
+(*   taken     R already has a namespace class of this kind                  *)
 (* ClassRuleBroken gives the exception class of every documented rule the    *)
-(* definition breaks; the definition is accepted iff the set is empty, and   *)
-(* must otherwise be rejected with (a subclass of) one of them.              *)
+(* creation breaks; it is accepted iff the set is empty, and must otherwise  *)
+(* be rejected with (a subclass of) one of them.  ClassAfter is what the two *)
+(* render classes own afterwards: a rejected creation - in particular a      *)
+(* re-association at any depth - leaves R's and R0's Args / _Data_ untouched.*)
 (* ------------------------------------------------------------------------ *)
 ClassDefs ==
-  {d \in [kind : {"args", "data"}, nbases : {1, 2}, inherits : BOOLEAN, defines : BOOLEAN,
+  {d \in [kind : {"args", "data"}, nbases : {1, 2}, depth : 0..3, defines : BOOLEAN,
           defaults : BOOLEAN, assoc : BOOLEAN, taken : BOOLEAN] :
      /\ (~d.defines => d.defaults)          \* nothing to leave without a default
      /\ (~d.assoc => ~d.taken)}
+Inherits(d) == d.depth > 0
 
 ClassRuleBroken(d) ==
   (IF d.nbases > 1 THEN {"RenderArgsDataError"} ELSE {})
   \cup (IF d.kind = "args" /\ d.defines /\ ~d.defaults THEN {"RenderArgsError"} ELSE {})
-  \cup (IF d.inherits /\ d.defines THEN {"RenderArgsDataError"} ELSE {})
-  \cup (IF d.inherits /\ d.assoc THEN {"RenderArgsDataError"} ELSE {})
-  \cup (IF d.assoc /\ ~d.defines /\ ~d.inherits THEN {"RenderArgsDataError"} ELSE {})
-  \cup (IF ~d.assoc /\ d.defines /\ ~d.inherits THEN {"RenderArgsDataError"} ELSE {})
+  \cup (IF Inherits(d) /\ d.defines THEN {"RenderArgsDataError"} ELSE {})
+  \cup (IF Inherits(d) /\ d.assoc THEN {"RenderArgsDataError"} ELSE {})
+  \cup (IF d.assoc /\ ~d.defines /\ ~Inherits(d) THEN {"RenderArgsDataError"} ELSE {})
+  \cup (IF ~d.assoc /\ d.defines /\ ~Inherits(d) THEN {"RenderArgsDataError"} ELSE {})
   \cup (IF d.assoc /\ d.taken
         THEN {IF d.kind = "args" THEN "RenderArgsError" ELSE "RenderDataError"} ELSE {})
 
-\* after an accepted definition: is the new class associated (instantiable), and with what
-ClassAssociated(d) == ClassRuleBroken(d) = {} /\ (d.assoc \/ d.inherits)
+\* after an accepted creation: is the new class associated (instantiable), and with what
+ClassAssociated(d) == ClassRuleBroken(d) = {} /\ (d.assoc \/ Inherits(d))
+\* namespace class owned afterwards by R ("new" | "prev" | "none") and by R0 ("base" | "none")
+ClassAfter(d) ==
+  [r |-> IF ClassRuleBroken(d) = {} /\ d.assoc THEN "new" ELSE IF d.taken THEN "prev" ELSE "none",
+   r0 |-> IF Inherits(d) THEN "base" ELSE "none"]
 
 (* instance-level rules on an associated namespace with fields f1..fn *)
 InstanceRules ==
